@@ -58,7 +58,10 @@ MODE_CLASSES = {
     'trans_model': {'FreeTrans': 'trans'},
     'vib_model': {'HarmonicVib': 'vib', 'QRRHOVib': 'vib', 'EinsteinVib': 'vib', 'DebyeVib': 'vib'},
     'rot_model': {'RigidRotor': 'rot'},
-    'elec_model': {'GroundStateElec': 'elec', 'LSR': 'lsr', 'ExtendedLSR': 'lsr'},
+    # ConstantMode (pmutt.statmech) is the electronic model of the library's own 'constant' preset and is
+    # accepted by name in an elec_model column; the catalogue is fixed here on purpose (never derived from the
+    # live module namespaces, which a change to the library could silently shrink)
+    'elec_model': {'GroundStateElec': 'elec', 'LSR': 'lsr', 'ExtendedLSR': 'lsr', 'ConstantMode': ''},
     'nucl_model': {'EmptyNucl': 'nucl'},
 }
 MODE_HEADERS = tuple(MODE_CLASSES)
